@@ -24,6 +24,9 @@ import (
 
 const prop = "C08"
 
+// workDir: scratch directory of this run (VERIF_C08_SUB separates concurrent runs, e.g. mutation self-tests).
+func workDir(sub string) string { return lib.WorkDir(prop, os.Getenv("VERIF_C08_SUB")+sub) }
+
 // newState builds the analyzer state the way taint.Analyze does (pointer analysis, implementations,
 // globals, bounding information); allFuncs widens the pointer queries to every function (std sweep).
 func newState(prog *ssa.Program, pkgs []*packages.Package, allFuncs bool) (*dataflow.AnalyzerState, error) {
@@ -106,7 +109,7 @@ func runOracle(rep *lib.Report, b *batch, dir string) map[*fnDump]string {
 func main() {
 	rep := lib.NewReport(prop)
 	rep.Rule = "one case = one function: real IntraProceduralAnalysis result (final MarkedValues restricted to parameter/free-variable/call-result marks + summary edges) checked against Intra.closed by the Lean oracle; generated functions: random typed statements over 23 types (see harness/cmd/c08/gen.go); distinct = distinct multiset of instruction kinds + block count; non-trivial = at least one origin, one value-computing instruction and one boundary target"
-	dir := lib.WorkDir(prop, "prog")
+	dir := workDir("prog")
 	r := lib.Rand("c08")
 
 	nFuncs, size := 450, 14
@@ -160,7 +163,16 @@ func main() {
 	b := &batch{name: "gen", srcs: srcs}
 	b.dumps = analyzeFunctions(state, fns, "g")
 	evaluate(rep, b, dir)
+	if os.Getenv("VERIF_C08_NOSTD") != "1" {
+		stdSweep(rep)
+	}
+	if lib.Thorough() || os.Getenv("VERIF_C08_WRAPS") == "1" {
+		sweepWraps(rep)
+	}
 
+	if tl, err := lib.RunOracle("oracle_c08", []byte("tbl\n")); err == nil && len(tl) == 1 {
+		rep.Extra["t5_builtin_table"] = tl[0]
+	}
 	for k, v := range stats {
 		rep.Dist["gen:"+k] = v
 	}
